@@ -175,15 +175,15 @@ class Scm:
             for key in itt.product(*doms):
                 self.kern[(v, key)] = _composition(rng, self.DEN, self.card[v])           # weights / DEN
         self._q = {}
+        self._cf = {}
         self._marg = {}
         self.assignments = list(itt.product(*[range(self.card[v]) for v in self.nodes]))
         self.idx = {v: i for i, v in enumerate(self.nodes)}
 
-    def q(self, S):
-        """Q[S] as {full observed assignment (tuple in self.nodes order): Fraction}"""
+    def q_reference(self, S):
+        """Q[S] straight from the definition (every latent assignment enumerated for every observed assignment):
+        the slow reference implementation `q` is cross-checked against (tools: `selftest()` below)"""
         S = frozenset(S)
-        if S in self._q:
-            return self._q[S]
         members = [v for v in self.nodes if v in S]
         lat_assignments = list(itt.product(*[range(self.lcard[u]) for u in self.latents]))
         lidx = {u: i for i, u in enumerate(self.latents)}
@@ -205,6 +205,71 @@ class Scm:
                     w *= self.kern[(v, key)][a[self.idx[v]]]
                 tot += w
             res[a] = tot * den
+        return res
+
+    def _component_factor(self, comp):
+        """sum over the latents touching `comp` (a set of observed variables closed under 'shares a latent inside
+        the set') of prod P(u) * prod_{v in comp} P(v | pa(v), lat(v)), as (vars W = comp u pa(comp), {values: Fraction})"""
+        comp = frozenset(comp)
+        hit = self._cf.get(comp)
+        if hit is not None:
+            return hit
+        members = [v for v in self.nodes if v in comp]
+        lats = [u for u in self.latents if any(u in self.lat_of[v] for v in members)]
+        W = sorted(set(members).union(*[self.pa[v] for v in members]))
+        wpos = {v: i for i, v in enumerate(W)}
+        lpos = {u: i for i, u in enumerate(lats)}
+        lat_assignments = list(itt.product(*[range(self.lcard[u]) for u in lats]))
+        pw = []
+        for lv in lat_assignments:
+            w = 1
+            for u in lats:
+                w *= self.pu[u][lv[lpos[u]]]
+            pw.append(w)
+        plan = [(v, wpos[v], [wpos[p] for p in self.pa[v]], [lpos[u] for u in self.lat_of[v]]) for v in members]
+        den = self.DEN ** (len(lats) + len(members))
+        kern = self.kern
+        vals = {}
+        for a in itt.product(*[range(self.card[v]) for v in W]):
+            tot = 0
+            for lv, w in zip(lat_assignments, pw):
+                for v, iv, ip, il in plan:
+                    w *= kern[(v, tuple([a[i] for i in ip] + [lv[i] for i in il]))][a[iv]]
+                tot += w
+            vals[a] = F(tot, den)
+        self._cf[comp] = (W, vals)
+        return W, vals
+
+    def _latent_components(self, S):
+        """partition of S by 'shares a latent' (transitively, through members of S only)"""
+        S = set(S)
+        out, seen = [], set()
+        for v in self.nodes:
+            if v not in S or v in seen:
+                continue
+            comp = closure({v}, lambda x: {w for w in S if w != x and set(self.lat_of[w]) & set(self.lat_of[x])})
+            seen |= comp
+            out.append(frozenset(comp))
+        return out
+
+    def q(self, S):
+        """Q[S] as {full observed assignment (tuple in self.nodes order): Fraction}.
+
+        Same quantity as `q_reference`; the sum over the latents is distributed over the groups of members of S that
+        share latents (the latents that touch no member of S sum to one)."""
+        S = frozenset(S)
+        if S in self._q:
+            return self._q[S]
+        facs = []
+        for comp in self._latent_components(S):
+            W, vals = self._component_factor(comp)
+            facs.append(([self.idx[v] for v in W], vals))
+        res = {}
+        for a in self.assignments:
+            x = F(1)
+            for ix, vals in facs:
+                x *= vals[tuple([a[i] for i in ix])]
+            res[a] = x
         self._q[S] = res
         return res
 
